@@ -72,6 +72,15 @@ var c06Toggled = []cPattern{
 	{pat: "/w/{name}/z", witness: func(v string) string { return "/w/" + v + "/z" }, param: "name", group: "twins:/w/{}/z"},
 }
 
+func c06IsToggled(pat string) bool {
+	for _, t := range c06Toggled {
+		if t.pat == pat {
+			return true
+		}
+	}
+	return false
+}
+
 func c06Group(pat string) string {
 	for _, t := range c06Toggled {
 		if t.pat == pat && t.group != "" {
@@ -138,7 +147,7 @@ func (x *c06Run) violate(msg string) {
 }
 
 // do wraps one client call: stamps before invoking and after returning.
-func (x *c06Run) do(client int, in cInput, f func() cOutput) {
+func (x *c06Run) do(client int, in cInput, f func() cOutput) cEvent {
 	ev := cEvent{Client: client, In: in, Call: x.clock.Add(1), Open: true}
 	func() {
 		defer func() {
@@ -152,6 +161,7 @@ func (x *c06Run) do(client int, in cInput, f func() cOutput) {
 	}()
 	ev.Return = x.clock.Add(1)
 	x.record(ev)
+	return ev
 }
 
 var yieldCount atomic.Int64
@@ -165,8 +175,12 @@ func yieldDigits(s string) bool {
 
 func (x *c06Run) serve(client int, p cPattern, method, value string) {
 	path := p.witness(value)
-	x.do(client, cInput{Op: "serve", Pat: p.pat, Method: method, Path: path, Value: value}, func() cOutput {
+	allowOf, allow := "", ""
+	ev := x.do(client, cInput{Op: "serve", Pat: p.pat, Method: method, Path: path, Value: value}, func() cOutput {
 		o := mon.Do(x.r, mon.Req{Method: method, Path: path})
+		if o.H != nil && (o.H.Base.Kind == mon.KOptions || o.H.Base.Kind == mon.K405) && o.Header != nil {
+			allowOf, allow = o.H.Base.Pattern, strings.Join(mon.AllowSet(o.Header.Get("Allow")), ",")
+		}
 		out := cOutput{Status: o.Status, Params: fmtParams(o.Params)}
 		if o.Panicked {
 			panic(o.Panic)
@@ -185,6 +199,11 @@ func (x *c06Run) serve(client int, p cPattern, method, value string) {
 		}
 		return out
 	})
+	if allowOf != "" && !ev.Open && c06IsToggled(allowOf) {
+		// the builder reads the node's Allow value at handler time, outside the tree lock: a second observation with the
+		// same window as the request (its own virtual client), linearized independently of the handler selection
+		x.record(cEvent{Client: client + 1000000, In: cInput{Op: "allow", Pat: allowOf, Method: method}, Out: cOutput{Methods: allow}, Call: ev.Call, Return: ev.Return})
+	}
 }
 
 // The sequential model. One partition holds the patterns of one group (usually
@@ -344,6 +363,13 @@ var c06Model = porcupine.Model{
 			}
 			return out.Kind == mon.K405, state
 		case "routes":
+			return out.Methods == stMethods(st), state
+		case "allow":
+			// the Allow header written by the OPTIONS/405 builder: the pattern's method set at this instant. A pattern without
+			// methods has no OPTIONS/405 handler, so no sequential response carries an empty Allow.
+			if len(st) == 0 {
+				return false, state
+			}
 			return out.Methods == stMethods(st), state
 		case "url":
 			return out.OK == (len(st) > 0), state
@@ -665,6 +691,12 @@ func runC06(c *Ctx) {
 			ret = end // stays open to the end of the history
 		}
 		ops = append(ops, porcupine.Operation{ClientId: e.Client, Input: e.In, Output: e.Out, Call: e.Call, Return: ret})
+		if e.In.Op == "allow" {
+			c.Class("allow_header_of_toggled_route_observed")
+			if e.Out.Methods == "" {
+				c.Class("allow_header_read_after_removal_empty")
+			}
+		}
 		if e.In.Op == "serve" || e.In.Op == "routes" || e.In.Op == "url" {
 			for _, w := range writes {
 				if c06Group(w.In.Pat) == c06Group(e.In.Pat) && w.Call < e.Return && e.Call < w.Return {
@@ -866,20 +898,99 @@ func racePost(id string) func(res *Result, work, tier string, seed uint64) {
 	}
 }
 
+// c06InFlight: deterministic schedules in which a write completes between the lookup of a request (tree lock released)
+// and the execution of its handler: the CallFunc performs the write itself before invoking the handler. The response must
+// be one a sequential router produces at some instant of the request: the handler selected at lookup time, and an Allow
+// header naming a method set the pattern had at such an instant.
+func c06InFlight() []Directed {
+	type scen struct {
+		id      string
+		initial []string // methods registered before the request
+		method  string   // request method
+		write   func(r *mux.Router[*mon.Hnd], env *mon.Env)
+		allows  []string // admissible Allow sets
+	}
+	const p = "/d/{id}/x"
+	full := "GET,HEAD,OPTIONS,POST"
+	scens := []scen{
+		{"inflight-options-removeall", []string{"GET"}, "OPTIONS", func(r *mux.Router[*mon.Hnd], _ *mon.Env) { r.Remove(p) }, []string{"GET,HEAD,OPTIONS"}},
+		{"inflight-405-removeall", []string{"GET"}, "PUT", func(r *mux.Router[*mon.Hnd], _ *mon.Env) { r.Remove(p) }, []string{"GET,HEAD,OPTIONS"}},
+		{"inflight-options-remove-last-method", []string{"POST"}, "OPTIONS", func(r *mux.Router[*mon.Hnd], _ *mon.Env) { r.Remove(p, "POST") }, []string{"OPTIONS,POST"}},
+		{"inflight-options-remove-one", []string{"GET", "POST"}, "OPTIONS", func(r *mux.Router[*mon.Hnd], _ *mon.Env) { r.Remove(p, "GET") }, []string{full, "OPTIONS,POST"}},
+		{"inflight-options-remove-one-by-one", []string{"GET", "POST"}, "OPTIONS", func(r *mux.Router[*mon.Hnd], _ *mon.Env) { r.Remove(p, "GET"); r.Remove(p, "POST") }, []string{full, "OPTIONS,POST"}},
+		{"inflight-options-clean", []string{"GET", "POST"}, "OPTIONS", func(r *mux.Router[*mon.Hnd], _ *mon.Env) { r.Clean() }, []string{full}},
+		{"inflight-405-prefix-clean", []string{"GET", "POST"}, "DELETE", func(r *mux.Router[*mon.Hnd], _ *mon.Env) { r.Prefix("/d/").Clean() }, []string{full}},
+		{"inflight-options-handle", []string{"GET"}, "OPTIONS", func(r *mux.Router[*mon.Hnd], env *mon.Env) { r.Handle(p, env.NewHnd(mon.KRoute, p), nil, "POST") }, []string{"GET,HEAD,OPTIONS", full}},
+		{"inflight-options-replace", []string{"GET"}, "OPTIONS", func(r *mux.Router[*mon.Hnd], env *mon.Env) {
+			r.Remove(p)
+			r.Handle(p, env.NewHnd(mon.KRoute, p), nil, "POST")
+		}, []string{"GET,HEAD,OPTIONS", "OPTIONS,POST"}},
+		{"inflight-options-removeall-with-children", []string{"GET"}, "OPTIONS", func(r *mux.Router[*mon.Hnd], _ *mon.Env) { r.Remove(p) }, []string{"GET,HEAD,OPTIONS"}},
+	}
+	var out []Directed
+	for _, sc := range scens {
+		sc := sc
+		out = append(out, Directed{ID: sc.id, Run: func(c *Ctx) {
+			for _, lock := range []bool{true, false} { // the schedule needs no second goroutine, so it is legal without WithLock too
+				env := mon.NewEnv()
+				r := env.NewRouter("inflight", mux.WithLock(lock))
+				r.Handle("/d/other", env.NewHnd(mon.KRoute, "/d/other"), nil, "GET")
+				if strings.HasSuffix(sc.id, "with-children") {
+					r.Handle(p+"/below", env.NewHnd(mon.KRoute, p+"/below"), nil, "GET") // the emptied node stays in the tree
+				}
+				r.Handle(p, env.NewHnd(mon.KRoute, p), nil, sc.initial...)
+				fired := false
+				env.OnCall = func() {
+					if !fired {
+						fired = true
+						sc.write(r, env)
+					}
+				}
+				o := mon.Do(r, mon.Req{Method: sc.method, Path: "/d/7/x"})
+				env.OnCall = nil
+				c.Eval()
+				c.Class("write_between_lookup_and_handler")
+				want := map[string]int{"OPTIONS": 200}[sc.method]
+				kind := mon.KOptions
+				if want == 0 {
+					want, kind = 405, mon.K405
+				}
+				got := ""
+				if o.Header != nil {
+					got = strings.Join(mon.AllowSet(o.Header.Get("Allow")), ",")
+				}
+				ok := !o.Panicked && o.H != nil && o.H.Base.Kind == kind && o.H.Base.Pattern == p && o.Status == want && o.Params["id"] == "7"
+				okAllow := false
+				for _, a := range sc.allows {
+					okAllow = okAllow || a == got
+				}
+				if !ok || !okAllow {
+					c.Violate("a request whose lookup preceded a completed write is answered with a response no sequential router gives", map[string]any{
+						"schedule": sc.id, "with_lock": lock, "pattern": p, "registered_before": sc.initial, "request": sc.method + " /d/7/x",
+						"status": o.Status, "allow": got, "admissible_allow_sets": sc.allows, "panicked": o.Panicked})
+					return
+				}
+			}
+		}})
+	}
+	return out
+}
+
 func init() {
 	Register(&Engine{
-		ID:    "C06",
-		Race:  true,
-		Cases: func(t string) int { return map[string]int{"quick": 96, "thorough": 6000}[t] },
-		Run:   runC06,
-		Post:  racePost("C06"),
-		Rule: "case = one history on a fresh WithLock router: 2-4 writers (Handle with unique handler ids, Remove, Remove-all, Prefix.Clean; owned and contended patterns that split/re-merge the nodes of untouched routes and create/destroy the first-byte index) x 4-8 readers (ServeHTTP, Routes, strict/non-strict URL), yields injected through builders/middleware/interceptor/CallFunc, GOMAXPROCS in {2,4,16}; evaluation = one recorded client event; " +
+		ID:       "C06",
+		Directed: c06InFlight,
+		Race:     true,
+		Cases:    func(t string) int { return map[string]int{"quick": 96, "thorough": 6000}[t] },
+		Run:      runC06,
+		Post:     racePost("C06"),
+		Rule: "case = one history on a fresh WithLock router: 2-4 writers (Handle with unique handler ids, Remove, Remove-all, Prefix.Clean; owned and contended patterns that split/re-merge the nodes of untouched routes and create/destroy the first-byte index) x 4-8 readers (ServeHTTP, Routes, strict/non-strict URL), yields injected through builders/middleware/interceptor/CallFunc, GOMAXPROCS in {2,4,16}; every OPTIONS/405 answer of a toggled route adds a second event (the Allow set its builder wrote, same window, linearized on its own: it must be the pattern's method set at some instant of the request, never empty); 10 directed single-goroutine schedules perform a write between lookup and handler; evaluation = one recorded client event; " +
 			"non-trivial (distinct by history) = history in which at least one read overlapped a write of the same pattern (overlaps counted by write kind)",
 		Floors: func(t string) map[string]int64 {
 			if t == "quick" {
-				return map[string]int64{"read_overlapping_handle": 20, "read_overlapping_remove": 5, "untouched_route_served": 3000, "porcupine_ok": 50}
+				return map[string]int64{"read_overlapping_handle": 20, "read_overlapping_remove": 5, "untouched_route_served": 3000, "porcupine_ok": 50, "allow_header_of_toggled_route_observed": 1000, "write_between_lookup_and_handler": 20}
 			}
-			return map[string]int64{"read_overlapping_handle": 1000, "read_overlapping_remove": 250, "untouched_route_served": 150000, "porcupine_ok": 2500}
+			return map[string]int64{"read_overlapping_handle": 1000, "read_overlapping_remove": 250, "untouched_route_served": 150000, "porcupine_ok": 2500, "allow_header_of_toggled_route_observed": 50000, "write_between_lookup_and_handler": 20}
 		},
 		Assume: []string{
 			"schedules are sampled, not enumerated; the race detector only sees accesses the workload performs",
